@@ -298,6 +298,28 @@ var mbMaps = []mbMapSpec{
 func buildRegs(r *vlib.R, spec mbMapSpec) (*modbus.Regs, *mbModel) {
 	regs := &modbus.Regs{}
 	m := &mbModel{regs: map[uint16]uint16{}, valid: map[uint16]int{}}
+	if r.Chance(0.5) {
+		// the same registers, but added the way an application does that registers what it needs piece by
+		// piece: runs of 1-4 registers in no particular address order, some of them twice
+		var pieces [][2]int
+		for _, rg := range spec.Ranges {
+			for a := 0; a < rg[1]; {
+				n := 1 + r.Intn(4)
+				if a+n > rg[1] {
+					n = rg[1] - a
+				}
+				pieces = append(pieces, [2]int{rg[0] + a, n})
+				if r.Chance(0.1) {
+					pieces = append(pieces, [2]int{rg[0] + a, 1})
+				}
+				a += n
+			}
+		}
+		r.Shuffle(len(pieces), func(a, b int) { pieces[a], pieces[b] = pieces[b], pieces[a] })
+		for _, pc := range pieces {
+			regs.AddReg(pc[0], pc[1])
+		}
+	}
 	for _, rg := range spec.Ranges {
 		regs.AddReg(rg[0], rg[1])
 		for i := 0; i < rg[1]; i++ {
@@ -439,7 +461,7 @@ func genMbRequest(r *vlib.R, spec mbMapSpec) (byte, []byte) {
 
 func runC18(tier string, _ []string) int {
 	c := vlib.NewCtx("C18", tier, "exploration")
-	c.SetRule("requests: function codes 1,2,3,4,5,6,15,16 from structured generators (address and quantity at 0,1,limit-1,limit,limit+1,2040/2041,0x7FFF,0x8000,0xFFFF, straddling the end of each mapped range and 65535->0; byte counts off by one; validator-friendly and hostile values; truncations and extra bytes) plus raw random (function code 0..255, random data), replayed as a stateful sequence against 7 register maps (empty, sparse, dense, dense with validators, top of address space, coil top, coils only). Oracle: reference server written from the Modbus spec v1.1b3; compared: response PDU, error return, register file (addressed registers every request, the whole file every 64 requests). distinct = (map, model outcome class, actual outcome) Finally 3-8 goroutines call ProcessRequest on one register file at once (as the handlers of a TCP server do), each writing coils only it owns inside registers shared with the others, reading each back and comparing all at rest. About 3% of the steps extend the live register file between two requests (AddReg next to existing registers, AddCoil, a validator on an existing register); the model follows. Last, raw frames with header anomalies (MBAP length 0 / 1 / short / long, protocol id, truncated or over-long frames, RTU frames with good and bad CRC) are written to a running Server over TCP and RTU framing: the listener goroutine must not panic. Finally the TCPServer itself: 3x its connection limit of sessions one after the other, each must be answered.")
+	c.SetRule("requests: function codes 1,2,3,4,5,6,15,16 from structured generators (address and quantity at 0,1,limit-1,limit,limit+1,2040/2041,0x7FFF,0x8000,0xFFFF, straddling the end of each mapped range and 65535->0; byte counts off by one; validator-friendly and hostile values; truncations and extra bytes) plus raw random (function code 0..255, random data), replayed as a stateful sequence against 7 register maps (empty, sparse, dense, dense with validators, top of address space, coil top, coils only; in half of the runs the registers are added in runs of 1-4 in shuffled address order). Oracle: reference server written from the Modbus spec v1.1b3; compared: response PDU, error return, register file (addressed registers every request, the whole file every 64 requests). distinct = (map, model outcome class, actual outcome) Finally 3-8 goroutines call ProcessRequest on one register file at once (as the handlers of a TCP server do), each writing coils only it owns inside registers shared with the others, reading each back and comparing all at rest. About 3% of the steps extend the live register file between two requests (AddReg next to existing registers, AddCoil, a validator on an existing register); the model follows. Last, raw frames with header anomalies (MBAP length 0 / 1 / short / long, protocol id, truncated or over-long frames, RTU frames with good and bad CRC) are written to a running Server over TCP and RTU framing: the listener goroutine must not panic. Finally the TCPServer itself: 3x its connection limit of sessions one after the other, each must be answered.")
 	c.Assume("tolerances: two simultaneous exception causes accept either code; truncated PDUs may get an exception or an error return; extra trailing bytes or a disagreeing byte-count byte with consistent length may be processed or refused with exception 3; multi-writes refused with an exception may leave addressed registers in any state")
 	nReq := c.N(600000, 20000000)
 	perSeq := 400
